@@ -74,8 +74,8 @@ def run(ctx):
               "with a fault or invalid ammo, or with auto-tag on a path of >=2 bytes; scenario cases with >=2 steps; every gshoot case; "
               "distinct = distinct case lines"),
         key_fn=key_fn,
-        translators=[("grpcstatus", "GrpcStatusGen.v"), ("consts", "ConstGen.v"), ("gofn-httpgun", "GoFnHttpgunGen.v"), ("pooldeps", "PoolDepsGen.v"), ("awaitrun", "AwaitRunGen.v")],
-        bridge_files=["Gen/GrpcStatus_bridge.v", "Gen/Const_bridge.v", "Gen/GoFnHttpgun_bridge.v", "Gen/PhoutReport_bridge.v", "Gen/EngineRun_bridge.v"],
+        translators=[("grpcstatus", "GrpcStatusGen.v"), ("consts", "ConstGen.v"), ("gofn-httpgun", "GoFnHttpgunGen.v"), ("pooldeps", "PoolDepsGen.v"), ("awaitrun", "AwaitRunGen.v"), ("jsontarget", "JsonLineTargetGen.v")],
+        bridge_files=["Gen/GrpcStatus_bridge.v", "Gen/Const_bridge.v", "Gen/GoFnHttpgun_bridge.v", "Gen/PhoutReport_bridge.v", "Gen/EngineRun_bridge.v", "Gen/JsonLineTarget_bridge.v"],
         trusted=[
             "translator harness/cmd/translate (grpcstatus: go/ast over ConvertGrpcStatus + markdown table; consts: values compiled from /repo)",
             "extraction: ExtrOcamlBasic only; OCaml driver ocaml/C10/main.ml + ocaml/common/conv.ml (zarith for decimal I/O)",
